@@ -29,7 +29,43 @@ struct Spec {
 
 static GSEQ: AtomicU64 = AtomicU64::new(0);
 
+/// Events recorded while a thread shuts down (from a thread-local's destructor).
+static EXIT_EVENTS: std::sync::Mutex<Vec<String>> = std::sync::Mutex::new(Vec::new());
+
+/// A driver-side thread-local that is initialised BEFORE the thread touches fpdec, so that its destructor runs
+/// late during thread shutdown. In the destructor the thread asks once more for its default mode and performs
+/// two rounding operations: "default() always returns the mode last set by the same thread" - also then.
+struct ExitProbe {
+    path: std::cell::RefCell<String>,
+}
+
+impl Drop for ExitProbe {
+    fn drop(&mut self) {
+        let path = self.path.borrow().clone();
+        if path.is_empty() {
+            return;
+        }
+        let m = RoundingMode::default();
+        let g = GSEQ.fetch_add(1, Ordering::SeqCst);
+        let mut evs = vec![format!("{} 1000000 {} get {}", path, g, mode_name(m))];
+        for (i, r) in ["round D25:1 0", "divr vv D-1:0 D3:0 2"].iter().enumerate() {
+            let resp = run_line(r);
+            let g = GSEQ.fetch_add(1, Ordering::SeqCst);
+            evs.push(format!("{} {} {} op exit {} {}", path, 1000001 + i, g, i, resp));
+        }
+        if let Ok(mut v) = EXIT_EVENTS.lock() {
+            v.extend(evs);
+        }
+    }
+}
+
+thread_local! {
+    static EXIT_PROBE: ExitProbe = ExitProbe { path: std::cell::RefCell::new(String::new()) };
+}
+
 fn run_script(spec: Arc<Spec>, sid: String, path: String) -> Vec<String> {
+    // first thing in the thread, before any fpdec call: arm the exit probe
+    EXIT_PROBE.with(|p| *p.path.borrow_mut() = path.clone());
     let mut events: Vec<String> = Vec::new();
     let mut lseq = 0_u64;
     let mut children: Vec<std::thread::JoinHandle<Vec<String>>> = Vec::new();
@@ -125,6 +161,7 @@ pub fn run(args: &[String]) -> i32 {
             _ => panic!("unknown spec line {}", line),
         }
     }
+    spec.batteries.entry("exit".to_string()).or_default();
     let spec = Arc::new(spec);
     let mut handles = Vec::new();
     for (i, sid) in spec.main.iter().enumerate() {
@@ -138,6 +175,10 @@ pub fn run(args: &[String]) -> i32 {
     let mut all: Vec<String> = Vec::new();
     for h in handles {
         all.extend(h.join().expect("thread panicked"));
+    }
+    // events recorded during thread shutdown (all threads are joined: their destructors have run)
+    if let Ok(v) = EXIT_EVENTS.lock() {
+        all.extend(v.iter().cloned());
     }
     // order by global sequence number (3rd field)
     all.sort_by_key(|l| {
